@@ -346,6 +346,8 @@ def gen_slab(rng, i):
     doc = {}
     g = wg.gen_globals(rng, ctx, doc, exotic=True, force_surface=False)
     thick = min(min(tt[0], tt[1]) for tt in t['table'])
+    if thick < 1.5e4:
+        return None       # the strongly widening bodies of C06's generator (a few km thick at the top) are a geometry matter; the thermal models are judged on plates of 15 km and more, as before
     name = rng.choice(['mass conserving', 'mass conserving', 'plate model'])
     f = dict(f)
     f.pop('composition models', None)
